@@ -34,10 +34,12 @@ Record case := mkcase {
   k_blob : list N;
   k_psums : list N;                 (* MetaInfo.GetPieceSum(i) *)
   k_ws : list winput;               (* the WritePiece calls *)
-  k_mode : N;                       (* 0 = scheduled at gate granularity, 1 = free-running goroutines *)
+  k_mode : N;                       (* 0 = scheduled at gate granularity, 1 = free-running goroutines,
+                                       2 = through TorrentArchive, callers one after the other, no gates *)
   k_steps : list (hop * iobs);      (* macro steps with the implementation's observation after each *)
   k_fo : iobs;                      (* the quiescent end state ... *)
-  k_fin : fin                       (* ... and what its clients read *)
+  k_fin : fin;                      (* ... and what its clients read *)
+  k_unit : list (list N)            (* piece status machine probed directly for status bytes 0,1,2 ([] = not probed) *)
 }.
 
 Definition cfg_of (k : case) : cfg := mkcfg (N.to_nat (k_pl k)) (length (k_blob k)) (k_psums k).
@@ -73,6 +75,27 @@ Definition model_agrees (k : case) : bool :=
   obs_eqb (observe_state c S1) (norm_obs ifo) &&
   fin_eqb (fin_of c S1) (norm_fin (k_fin k)).
 
+(* mode 2: every caller runs to its return before the next one starts; NewTorrent (GetTorrent) in
+   between is the identity on idle states (C03_reopen_is_identity) *)
+Fixpoint adv_done (fuel : nat) (c : cfg) (S : sys) (k : nat) : sys :=
+  match fuel with
+  | 0 => S
+  | Datatypes.S f => match pc_of S k with PDone _ => S | _ => adv_done f c (advance c S k) k end
+  end.
+Definition run_seq (c : cfg) (S : sys) (n : nat) : sys := fold_left (fun S k => adv_done 16 c S k) (seq 0 n) S.
+
+Definition model_agrees_seq (k : case) : bool :=
+  let c := cfg_of k in
+  let S1 := run_seq c (start (init_fresh c) (k_ws k)) (length (k_ws k)) in
+  let '(_, ifo) := impl_obs k in
+  obs_eqb (observe_state c S1) (norm_obs ifo) && fin_eqb (fin_of c S1) (norm_fin (k_fin k)).
+
+Definition unit_ok (k : case) : bool :=
+  match k_unit k with
+  | [] => true
+  | u => list_eqb (list_eqb N.eqb) u (map piece_unit [0; 1; 2]%N)
+  end.
+
 Definition raw_ok (k : case) : bool :=
   let c := cfg_of k in
   let '(ios, ifo) := impl_obs k in
@@ -80,7 +103,8 @@ Definition raw_ok (k : case) : bool :=
 
 Definition mismatch (k : case) : bool :=
   let c := cfg_of k in
-  negb (geometry_ok c (k_blob k)) ||
+  negb (geometry_ok c (k_blob k)) || negb (unit_ok k) ||
+  (N.eqb (k_mode k) 2 && negb (model_agrees_seq k) && (forallb honest (k_ws k) || negb (raw_ok k))) ||
   (N.eqb (k_mode k) 0 && negb (hist_ok c (start (init_fresh c) (k_ws k)) (map fst (k_steps k)))) ||
   (N.eqb (k_mode k) 0 &&
    negb (model_agrees k) &&
